@@ -28,7 +28,7 @@ PROP = dict(
     ],
     engines=[
         gt("examples", "interfaces/policy", "TestVerifC21Examples", dict(shards=1), dict(shards=1), rapid=False),
-        gt("model", "interfaces/policy", "TestVerifC21Model", dict(checks=8000, shards=2), dict(checks=100000, shards=16)),
-        gt("metamorphic", "interfaces/policy", "TestVerifC21Metamorphic", dict(checks=4000, shards=2), dict(checks=50000, shards=16)),
+        gt("model", "interfaces/policy", "TestVerifC21Model", dict(checks=8000, shards=2), dict(checks=70000, shards=16)),
+        gt("metamorphic", "interfaces/policy", "TestVerifC21Metamorphic", dict(checks=4000, shards=2), dict(checks=35000, shards=16)),
     ],
 )
